@@ -27,6 +27,7 @@ fn dispatch(prop: &str, ctx: &Ctx, replay: Option<&[String]>) -> bool {
     "C06" => p!(c06),
     "C07" => p!(c07),
     "C08" => p!(c08),
+    "C09" => p!(c09),
     "C10" => p!(c10),
     "C12" => p!(c12),
     _ => false,
